@@ -183,6 +183,10 @@ def work(shard, res, tier, seed):
             carbon_one(r["reaction"], res, CheckCarbonBalance, is_carbon_balanced)
             if r["expected"]:
                 carbon_one(r["expected"], res, CheckCarbonBalance, is_carbon_balanced)
+        from vgen import reactions as G
+        for _, rx in G.dot_ring_closures(rng, 60):
+            carbon_one(rx, res, CheckCarbonBalance, is_carbon_balanced)
+            res.count("dot_ring_closure_inputs")
         for k in range(0, min(len(pick), 200), 20):
             atom_balance_sequence([r["reaction"] for r in pick[k:k + 20]], res, CheckCarbonBalance)
     if "data_decomposer" in shard:
